@@ -536,6 +536,11 @@ func borderScopes(thorough bool) []Scope {
 			GS:   GridSpec{Kind: "real", Set: "WebMercatorQuad", Deepest: z, Sub: borderSub, OffPx: a.px},
 			Spec: lat.Spec{Explicit: borderKiteFamily(thorough), Valid: true}, IDSets: [][]int{{z}}, Cfgs: keepCfgs})
 	}
+	// the same kites with the tip on the pixel border x = -43.84 of NetherlandsRDNewQuad (a border of every id; its
+	// product with 1e10 is not a whole number, so conversions that round negative ordinates differently disagree there)
+	scs = append(scs, Scope{Name: "F-border-kite:NetherlandsRDNewQuad-z14@x=-43.84",
+		GS:   GridSpec{Kind: "real", Set: "NetherlandsRDNewQuad", Deepest: 14, Sub: borderSub, OffPx: [2]int64{21741568, 21143552}},
+		Spec: lat.Spec{Explicit: borderKiteFamily(thorough), Valid: true}, IDSets: [][]int{{14}}, Cfgs: keepCfgs})
 	return scs
 }
 
